@@ -16,6 +16,7 @@ CFG = dict(
          "25 fixed regression inputs (the repaired defects, one send-queue history) run first. Non-trivial = a decoded packet whose accessors were all checked (acc), a "
          "completed round trip (rt) or a datagram with valid fixed header rejected by a validation (rej); distinct by input line.",
     nontrivial=["acc", "rt", "rej"],
+    lean_files=["C15", "ComposePackets"],
     jobs=seeds(1, 8),
     trusted_base=["Go slice/interface/integer semantics as transcribed in Model/C15.lean (uint8/uint16/uint32 narrowing, 64-bit int wrap-around, "
                   "io.ReadFull's EOF vs ErrUnexpectedEOF, range-over-string yielding a non-ASCII rune for every byte >= 0x80)",
@@ -60,4 +61,6 @@ THEOREMS = [
     ("DastardV.Props.C15", "DastardV.C15.C15_roundtrip_shape_exact"),
     ("DastardV.Props.C15", "DastardV.C15.C15_history_built"),
     ("DastardV.Props.C15", "DastardV.C15.C15_history_roundtrip"),
+    ("DastardV.Lemmas.ComposePackets", "DastardV.Compose.wire_to_ingest"),
+    ("DastardV.Lemmas.ComposePackets", "DastardV.Compose.wire_history_to_ingest"),
 ]
